@@ -494,7 +494,7 @@ INFO['C17'] = {
               'backup layers over the probe (N,M sampled), all configuration bit patterns; depth-5 stack '
               'affine<linear<clamp<strided<array>>>>: every layer read back, field rebuilt from reported configurations + storage, '
               'equal at a symbolic lattice coordinate, 2x2 storage with symbolic contents; accessor walk (get_configuration == stored '
-              'configuration, get_backend == next layer) over the 21 stacks of the IO catalogue, all configuration values',
+              'configuration, get_backend == next layer) over the 23 stacks of the IO catalogue, all configuration values; rebuild of geometry-consistent states (extents 1..2, hilbert 1..3) of stacks 3/5/6/7/10 and of row-major / Morton / Hilbert fields BUILT BY CONVERSION from a row-major field, through get_configuration()+get_backend() and through a file: equal lookups at EVERY lattice coordinate (state the accessors do not report shows here)',
     'outside': 'stacks other than the listed ones; storage larger than 2x2', 'cuts': 'none', 'assumptions': [],
 }
 INFO['C05'] = {
@@ -545,9 +545,9 @@ def units_C17(tier, seed):
         U += unit(f'c17_rebuild_{k}', H, f'rebuild_h<{k}>()', sites=[1, 2, 3], diff=(k in (5, 6)), flavours=('rel', 'dbg') if k in (4, 5, 6, 21) else ('rel',))
         if k == 3:
             for lay in (0, 1, 2):
-                U += unit(f'c17_rebuild_conv_{lay}', H, f'rebuild_conv_h<{lay},{3 if lay == 2 else 2}>()', sites=[1, 2, 3], weight=40, timeout=1800, cfg={'sym_cells_cap': 4096})
+                U += unit(f'c17_rebuild_conv_{lay}', H, f'rebuild_conv_h<{lay},{3 if lay == 2 else 2}>()', sites=[1, 2, 3], weight=41, timeout=1800, cfg={'sym_cells_cap': 4096})
         if k in (3, 5, 7, 10, 6):
-            U += unit(f'c17_rebuild_geo_{k}', H, f'rebuild_geo_h<{k},{3 if k == 7 else 2}>()', sites=[1, 2, 3], weight=40, timeout=1800, cfg={'sym_cells_cap': 4096})
+            U += unit(f'c17_rebuild_geo_{k}', H, f'rebuild_geo_h<{k},{3 if k == 7 else 2}>()', sites=[1, 2, 3], weight=41, timeout=1800, cfg={'sym_cells_cap': 4096})
     return U
 
 
@@ -633,7 +633,7 @@ IO_DESC = ('catalogue: array<float3>, array<double1>, constant (2), identity, st
 INFO['C06'] = {
     'bounds': IO_DESC + '; every configuration value and stored scalar a symbolic bit pattern (NaN payloads, signed zeros, subnormals, '
               'infinities); array length 0..2 quick / 0..3 thorough, geometry-consistent states (extents 1..3 with the storage the library allocates), plus long payloads of exactly 86-90 elements (quick) / up to 300 (thorough), plus payloads one element past every integer literal (16..2048) that the array / binary_io sources of the tree under check contain (candidate block sizes of a chunked reader; none on the pinned tree), and for literals up to 2^22 (bytes or elements) concrete zero-filled payloads of exactly that size and one element more: load(dump(f)) bit-identical at every layer and index, reader consumes '
-              'exactly the written bytes, dump(load(dump(f))) == dump(f) byte for byte',
+              'exactly the written bytes, dump(load(dump(f))) == dump(f) byte for byte; on the geometry-consistent states the reloaded field also looks up the same bits at every lattice coordinate',
     'outside': 'arrays longer than the bound; stacks outside the catalogue (covered compositionally by the per-layer probe stacks)',
     'cuts': 'stream model (engine/models.py: istream::read / ostream::write on engine-owned streams); error-message formatting cut',
     'assumptions': [],
